@@ -177,10 +177,12 @@ def cells(prop, tier):
     if tier == 'thorough':
         for only in ('default', 'BaseException', 'Exception', 'Base', 'Sub', 'Unrelated', 'BaseOnly'):
             for alpha in ALPHABETS:
-                out.append(_cell(3, only, alpha, 'thorough', 900, dmax=3))
-        for only, alpha in (('Base', ALPHABETS[2]), ('default', ALPHABETS[0]), ('BaseOnly', ALPHABETS[3])):
-            out.append(_cell(4, only, alpha, 'thorough', 1500, dmax=3))
-            out.append(_cell(3, only, alpha, 'thorough', 900, kind='task', dmax=3))
+                for api in (False, True):
+                    out.append(_cell(3, only, alpha, 'thorough', 1500, dmax=2, api=api))
+        for only, alpha in (('Base', ('Unrelated', 'Sub')), ('default', ('return', 'Base')), ('BaseOnly', ('BaseOnly', 'Sub')), ('Exception', ('Base', 'BaseOnly'))):
+            for api in (False, True):
+                out.append(_cell(4, only, alpha, 'thorough', 3000, dmax=2, api=api))
+                out.append(_cell(3, only, alpha, 'thorough', 1500, kind='task', dmax=3, api=api))
     return out
 
 
